@@ -165,7 +165,7 @@ func c17AddLineInfo(s string, line, col int64) string {
 // c17Oracles computes the answers of the two unmodelled functions (graph.ShortenFunctionName,
 // filepath.Clean+ToSlash) for every string the model can ask about; only non-identity answers are
 // shipped (the model's tables default to the identity).
-func c17Oracles(p *profile.Profile, trim string) (Term, Term) {
+func c17Oracles(p *profile.Profile, trims ...string) (Term, Term) {
 	sh, cl := map[string]string{}, map[string]string{}
 	nilLines := 0
 	for _, s := range p.Sample {
@@ -187,10 +187,12 @@ func c17Oracles(p *profile.Profile, trim string) (Term, Term) {
 			} else if ln.Function.Name != "" {
 				names = append(names, ln.Function.Name)
 			} else {
-				full := c17AddLineInfo(report.VerifC17TrimPath(ln.Function.Filename, trim, ""), ln.Line, ln.Column)
-				if full != "" {
-					if c := filepath.ToSlash(filepath.Clean(full)); c != full {
-						cl[full] = c
+				for _, trim := range trims {
+					full := c17AddLineInfo(report.VerifC17TrimPath(ln.Function.Filename, trim, ""), ln.Line, ln.Column)
+					if full != "" {
+						if c := filepath.ToSlash(filepath.Clean(full)); c != full {
+							cl[full] = c
+						}
 					}
 				}
 			}
@@ -226,9 +228,125 @@ type c17Opts struct {
 	ratio   float64
 }
 
+func (o c17Opts) term() Term {
+	return L(ZI(o.index), ZI(o.meanDiv), S(o.typ), S(o.unit), S(o.trim), Rat(o.ratio))
+}
+
+func (o c17Opts) reportOptions() *report.Options {
+	ropt := &report.Options{
+		SampleValue: func(v []int64) int64 { return v[o.index] },
+		SampleType:  o.typ, SampleUnit: o.unit, TrimPath: o.trim, Ratio: o.ratio,
+	}
+	if o.meanDiv >= 0 {
+		ropt.SampleMeanDivisor = func(v []int64) int64 { return v[o.meanDiv] }
+	}
+	return ropt
+}
+
 func c17Input(p *profile.Profile, o c17Opts) Term {
 	sh, cl := c17Oracles(p, o.trim)
-	return L(DumpProfile(p), L(ZI(o.index), ZI(o.meanDiv), S(o.typ), S(o.unit), S(o.trim), Rat(o.ratio)), sh, cl)
+	return L(DumpProfile(p), o.term(), sh, cl)
+}
+
+// c17OptsOfReport reads back the options a report was built with (sample index and mean divisor by
+// probing the extractor functions with the vector 0,1,2,...).
+func c17OptsOfReport(rpt *report.Report) c17Opts {
+	ro := report.VerifC17Options(rpt)
+	rp := report.VerifC17Profile(rpt)
+	probe := make([]int64, len(rp.SampleType))
+	for i := range probe {
+		probe[i] = int64(i)
+	}
+	o := c17Opts{index: int(ro.SampleValue(probe)), meanDiv: -1, typ: ro.SampleType, unit: ro.SampleUnit, trim: ro.TrimPath, ratio: ro.Ratio}
+	if ro.SampleMeanDivisor != nil {
+		o.meanDiv = int(ro.SampleMeanDivisor(probe))
+	}
+	return o
+}
+
+// c17Alias makes parts of an in-memory profile share backing arrays, which profile.Profile allows
+// (a converter that interns call stacks produces exactly this): two samples with the very same
+// Location slice, two samples whose Location slices are overlapping windows of one array, a slice
+// with spare capacity followed by another sample's data, locations sharing one Line array, samples
+// sharing one Value array.  Code that edits a slice it was only meant to read (reverse, sort,
+// append, truncate-and-extend) then changes what a LATER sample or a LATER call sees.  The logical
+// content is whatever DumpProfile shows after this function returns.
+func c17Alias(r *Rng, p *profile.Profile) []string {
+	var tags []string
+	ns := len(p.Sample)
+	if ns >= 2 {
+		i, j := r.Intn(ns), r.Intn(ns)
+		if i != j {
+			switch r.Intn(4) {
+			case 0: // the very same slice
+				p.Sample[j].Location = p.Sample[i].Location
+				tags = append(tags, "f:shared-location-slice")
+			case 1: // overlapping windows of one array
+				arr := append(append([]*profile.Location{}, p.Sample[i].Location...), p.Sample[j].Location...)
+				ni, nj := len(p.Sample[i].Location), len(p.Sample[j].Location)
+				if ni > 0 && nj > 0 {
+					k := r.Intn(ni)
+					p.Sample[i].Location = arr[:ni]
+					p.Sample[j].Location = arr[k : k+nj]
+					tags = append(tags, "f:overlapping-location-slices")
+				}
+			case 2: // spare capacity of i's slice is j's data
+				arr := append(append([]*profile.Location{}, p.Sample[i].Location...), p.Sample[j].Location...)
+				ni := len(p.Sample[i].Location)
+				p.Sample[i].Location = arr[:ni]
+				p.Sample[j].Location = arr[ni:]
+				tags = append(tags, "f:adjacent-location-slices")
+			case 3: // one Value array
+				p.Sample[j].Value = p.Sample[i].Value
+				tags = append(tags, "f:shared-value-slice")
+			}
+		}
+	}
+	if nl := len(p.Location); nl >= 2 && r.P(1, 3) {
+		i, j := r.Intn(nl), r.Intn(nl)
+		if i != j && len(p.Location[i].Line) > 0 {
+			p.Location[j].Line = p.Location[i].Line
+			tags = append(tags, "f:shared-line-slice")
+		}
+	}
+	return tags
+}
+
+// c17Seq is the call-sequence op: reports rpts[j] = report.New(p, os[j]) all share the profile p;
+// call k is rpts[steps[k]].Stacks().  The input is dumped before the first call; the observable is
+// the list of all returned stack sets and the profile as dumped again after the last call.
+func c17Seq(c *Ctx, gen string, p *profile.Profile, os []c17Opts, steps []int, tags ...string) {
+	var trims []string
+	var ots, sts []Term
+	for _, o := range os {
+		trims = append(trims, o.trim)
+		ots = append(ots, o.term())
+	}
+	for _, k := range steps {
+		sts = append(sts, ZI(k))
+	}
+	sh, cl := c17Oracles(p, trims...)
+	in := L(S("seq"), DumpProfile(p), L(ots...), L(sts...), sh, cl)
+	ft, frames := c17Features(p)
+	var dumps []Term
+	var after Term
+	func() {
+		defer func() {
+			if e := recover(); e != nil {
+				dumps = append(dumps, L(S("panic"), S(fmt.Sprint(e))))
+				after = L(S("panic"))
+			}
+		}()
+		var rpts []*report.Report
+		for _, o := range os {
+			rpts = append(rpts, report.New(p, o.reportOptions()))
+		}
+		for _, k := range steps {
+			dumps = append(dumps, c17Dump(rpts[k].Stacks()))
+		}
+		after = DumpProfile(p)
+	}()
+	c.Case(gen, in, L(L(dumps...), after), frames > 0, append(append([]string{"path:direct", fmt.Sprintf("calls:%d", len(steps))}, tags...), ft...)...)
 }
 
 func c17Features(p *profile.Profile) (tags []string, frames int) {
@@ -403,13 +521,7 @@ func c17RandOpts(r *Rng, p *profile.Profile) c17Opts {
 
 // c17Direct builds a report the way the driver does (report.New with explicit options) and dumps Stacks().
 func c17Direct(c *Ctx, gen string, p *profile.Profile, o c17Opts, tags ...string) {
-	ropt := &report.Options{
-		SampleValue: func(v []int64) int64 { return v[o.index] },
-		SampleType:  o.typ, SampleUnit: o.unit, TrimPath: o.trim, Ratio: o.ratio,
-	}
-	if o.meanDiv >= 0 {
-		ropt.SampleMeanDivisor = func(v []int64) int64 { return v[o.meanDiv] }
-	}
+	ropt := o.reportOptions()
 	in := c17Input(p, o)
 	ft, frames := c17Features(p)
 	var obs Term
@@ -425,7 +537,7 @@ func c17Direct(c *Ctx, gen string, p *profile.Profile, o c17Opts, tags ...string
 }
 
 // c17Web serves /flamegraph through the real handler and parses the JSON embedded in the page.
-func c17Web(c *Ctx, gen string, p *profile.Profile, r *Rng) {
+func c17Query(r *Rng, p *profile.Profile) (url.Values, string) {
 	gran := c17Grans[1+r.Intn(len(c17Grans)-1)]
 	q := url.Values{}
 	q.Set("g", gran)
@@ -439,6 +551,68 @@ func c17Web(c *Ctx, gen string, p *profile.Profile, r *Rng) {
 	if r.P(1, 4) {
 		q.Set("showcolumns", "t")
 	}
+	return q, gran
+}
+
+// c17WebSeq serves 2-4 /flamegraph requests through ONE web interface (a browser session): the same
+// URL again, other granularities / sample indexes, and sometimes a request that fails (unknown
+// granularity -> 400) in between.  Every successful page is judged like a single request, against
+// the report built from a pristine copy of the profile.
+func c17WebSeq(c *Ctx, gen string, p *profile.Profile, r *Rng) {
+	n := 2 + r.Intn(3)
+	var qs []string
+	var grans []string
+	for k := 0; k < n; k++ {
+		switch {
+		case k > 0 && r.P(1, 3): // the same request again
+			qs, grans = append(qs, qs[k-1]), append(grans, grans[k-1])
+		case k < n-1 && r.P(1, 6): // an error path followed by more work
+			qs, grans = append(qs, "g=bogus"), append(grans, "bogus")
+		default:
+			q, g := c17Query(r, p)
+			qs, grans = append(qs, q.Encode()), append(grans, g)
+		}
+	}
+	trim := PickS(r, c17Trims)
+	div := []float64{1, 1, 2, 0.5, 1000}[r.Intn(5)]
+	var steps []driver.VerifC17Step
+	var err error
+	func() {
+		defer func() {
+			if e := recover(); e != nil {
+				err = fmt.Errorf("panic: %v", e)
+			}
+		}()
+		steps, err = driver.VerifC17StackViewSeq(p, qs, trim, div)
+	}()
+	if err != nil {
+		c.Case(gen, L(S("web-seq-error"), Ss(qs)), L(S("error"), S(err.Error())), false, "path:web")
+		return
+	}
+	for k, st := range steps {
+		if grans[k] == "bogus" {
+			if st.Status == 200 { // must be refused; a page here would be served from stale state
+				c.Case(gen, L(S("web-seq-bogus"), Ss(qs[:k+1])), L(S("http"), ZI(st.Status)), false, "path:web")
+			}
+			continue
+		}
+		if st.Err != nil || st.Rpt == nil {
+			c.Case(gen, L(S("web-seq-error"), Ss(qs[:k+1])), L(S("error"), ZI(st.Status), S(fmt.Sprint(st.Err))), false, "path:web")
+			continue
+		}
+		rp := report.VerifC17Profile(st.Rpt)
+		in := c17Input(rp, c17OptsOfReport(st.Rpt))
+		ft, frames := c17Features(rp)
+		obs := L(S("http"), ZI(st.Status))
+		if st.Status == 200 {
+			obs = c17FromJSON(st.Page)
+		}
+		c.Case(gen, in, obs, frames > 0, append([]string{"path:web", "gran:" + grans[k], fmt.Sprintf("request:%d", k+1)}, ft...)...)
+	}
+}
+
+func c17Web(c *Ctx, gen string, p *profile.Profile, r *Rng) {
+	q, gran := c17Query(r, p)
 	trim := PickS(r, c17Trims)
 	div := []float64{1, 1, 2, 0.5, 1000}[r.Intn(5)]
 	var in, obs Term
@@ -455,17 +629,8 @@ func c17Web(c *Ctx, gen string, p *profile.Profile, r *Rng) {
 			in, obs = L(S("web-error"), S(q.Encode())), L(S("error"), ZI(status), S(fmt.Sprint(err)))
 			return
 		}
-		ro := report.VerifC17Options(rpt)
 		rp := report.VerifC17Profile(rpt)
-		probe := make([]int64, len(rp.SampleType))
-		for i := range probe {
-			probe[i] = int64(i)
-		}
-		o := c17Opts{index: int(ro.SampleValue(probe)), meanDiv: -1, typ: ro.SampleType, unit: ro.SampleUnit, trim: ro.TrimPath, ratio: ro.Ratio}
-		if ro.SampleMeanDivisor != nil {
-			o.meanDiv = int(ro.SampleMeanDivisor(probe))
-		}
-		in = c17Input(rp, o)
+		in = c17Input(rp, c17OptsOfReport(rpt))
 		ft, frames = c17Features(rp)
 		if status != 200 {
 			obs = L(S("http"), ZI(status))
@@ -514,6 +679,9 @@ func c17Small(c *Ctx, depth int) {
 					s := &profile.Sample{Value: []int64{int64(k*7 + 1)}}
 					for _, i := range st {
 						s.Location = append(s.Location, locs[i])
+					}
+					if k == 2 { // the third sample IS the first one's stack: same Location slice
+						s.Location = p.Sample[0].Location
 					}
 					p.Sample = append(p.Sample, s)
 				}
@@ -570,16 +738,68 @@ func runC17(c *Ctx) {
 		q.Location[0].Line[0].Function = nil
 		q.Location[2].Line[0].Line, q.Location[2].Line[0].Column = 3, 0
 		c17Direct(c, "corner", q, c17Opts{index: 0, meanDiv: -1, typ: "cpu", unit: "nanoseconds"}, "gran:raw")
+		// two samples with the very same Location slice (an interned call stack), one call
+		sh := mk().Copy()
+		sh.Sample[1].Location = sh.Sample[0].Location
+		sh.Sample[5].Location = sh.Sample[0].Location[1:3]
+		c17Direct(c, "corner", sh, c17Opts{index: 0, meanDiv: -1, typ: "cpu", unit: "nanoseconds"}, "gran:raw", "f:shared-location-slice")
+		// Stacks() three times on one report; two reports (cpu / alloc) sharing the profile, interleaved
+		o0 := c17Opts{index: 0, meanDiv: -1, typ: "cpu", unit: "nanoseconds"}
+		o1 := c17Opts{index: 1, meanDiv: -1, typ: "alloc", unit: "bytes", trim: "/src"}
+		for _, gran := range []string{"raw", "functions", "files"} {
+			p1 := mk().Copy()
+			c17Aggregate(p1, gran, false, false)
+			c17Seq(c, "corner-calls", p1, []c17Opts{o0}, []int{0, 0, 0}, "gran:"+gran)
+			p2 := mk().Copy()
+			c17Aggregate(p2, gran, false, false)
+			c17Seq(c, "corner-calls", p2, []c17Opts{o0, o1}, []int{0, 1, 0, 1}, "gran:"+gran)
+		}
 	}
 
-	n := c.Budget(1000, 40000)
+	n := c.Budget(800, 36000)
 	for k := 0; k < n; k++ {
 		p := c17Profile(c.R, false)
 		gran := PickS(c.R, c17Grans)
 		c17Aggregate(p, gran, c.R.P(1, 4), c.R.P(1, 4))
-		c17Direct(c, "random", p, c17RandOpts(c.R, p), "gran:"+gran)
+		tags := []string{"gran:" + gran}
+		if c.R.P(1, 3) {
+			tags = append(tags, c17Alias(c.R, p)...)
+		}
+		c17Direct(c, "random", p, c17RandOpts(c.R, p), tags...)
 	}
-	nw := c.Budget(300, 8000)
+	// call sequences: the same report asked again ("repeat"), several reports over one profile asked
+	// in turn ("interleave"); half of the profiles with shared backing arrays
+	for k := 0; k < c.Budget(200, 6000); k++ {
+		p := c17Profile(c.R, false)
+		gran := PickS(c.R, c17Grans)
+		c17Aggregate(p, gran, c.R.P(1, 4), c.R.P(1, 4))
+		tags := []string{"gran:" + gran}
+		if c.R.Bool() {
+			tags = append(tags, c17Alias(c.R, p)...)
+		}
+		if k%5 < 3 {
+			steps := []int{0, 0}
+			if c.R.P(1, 3) {
+				steps = append(steps, 0)
+			}
+			c17Seq(c, "repeat", p, []c17Opts{c17RandOpts(c.R, p)}, steps, tags...)
+		} else {
+			nr := 2 + c.R.Intn(2)
+			var os []c17Opts
+			for j := 0; j < nr; j++ {
+				os = append(os, c17RandOpts(c.R, p))
+			}
+			steps := []int{0, 1}
+			for j := c.R.Intn(3); j >= 0; j-- {
+				steps = append(steps, c.R.Intn(nr))
+			}
+			c17Seq(c, "interleave", p, os, steps, tags...)
+		}
+	}
+	for k := 0; k < c.Budget(50, 1500); k++ {
+		c17WebSeq(c, "web-session", c17Profile(c.R, true), c.R)
+	}
+	nw := c.Budget(220, 8000)
 	for k := 0; k < nw; k++ {
 		p := c17Profile(c.R, true)
 		gen := "web"
